@@ -4,6 +4,7 @@ CONSTANTS Sender = {"s1", "s2"}
           QueueMode = TRUE
           QCap = 2
           MaxConn = 3
+          Broken = "none"
           NPacks = 4
 CONSTRAINT ConnBound
 VIEW MCView
